@@ -357,6 +357,43 @@ func init() {
 }
 
 func init() {
+	// Leadership is transferred to a NON-voter (the leader does not check the target's suffrage) and the link is
+	// cut right after the TimeoutNow was handled; the old leader then restarts and stands for the same term.
+	// A server without a vote must never win an election (it would do so on nobody's vote but its own).
+	mkTN := func(nv int) func() *Scenario {
+		return func() *Scenario {
+			ns := append(voters(nv), NodeSpec{Suffrage: raft.Nonvoter, InBootstrap: true, StartUp: true})
+			return &Scenario{Nodes: ns, Devs: DevAll, Horizon: 500, Goal: goalConverged, AutoRestart: true,
+				Steps: []Step{
+					stepApplyLeader("apply1"),
+					stepDo("transfer-to-nonvoter", whenSettled, func(w *World) {
+						l := w.leader()
+						w.vals["old"] = l.id
+						w.transfer(l, nv)
+					}),
+					urgent(stepDo("cut-nonvoter-off-after-timeoutnow", func(w *World) bool {
+						for _, m := range w.live {
+							if m.Kind == "TN" && m.To == nv && m.HandledAt > 0 {
+								return true
+							}
+						}
+						return w.callsDone()
+					}, func(w *World) { w.isolate(nv, true) })),
+					stepDo("restart-old-leader", func(w *World) bool { return w.netIdle() }, func(w *World) {
+						o := w.nodes[w.vals["old"]]
+						w.crash(o)
+						w.start(o)
+					}),
+					stepDo("heal", func(w *World) bool { l := w.stableLeader(); return l != nil && w.netIdle() }, func(w *World) { w.isolate(nv, false) }),
+					stepApplyLeader("apply-final"),
+				}}
+		}
+	}
+	regScenario("transfer-nonvoter1", mkTN(1))
+	regScenario("transfer-nonvoter3", mkTN(3))
+}
+
+func init() {
 	// As stale-suffix, but the deposed leader keeps trailing logs (as the default configuration does), later becomes
 	// leader again and brings a brand-new server up to date from its own log.
 	regScenario("stale-suffix-trail", func() *Scenario {
